@@ -29,3 +29,14 @@ def misc(entry, tier, **kw):
     kw.setdefault('unwind', 3)
     nm = kw.pop('name', entry)
     return Query(nm, 'sp_misc.cpp', 'harness_' + entry, tus=MISC_TU, cxxflags=RNG_ENV, **kw)
+
+COMP_TU = ['src/ompl/base/src/StateSpace.cpp', 'src/ompl/base/src/StateSampler.cpp']
+
+
+def compound(entry, tier, **kw):
+    kw.setdefault('timeout', 300 if tier == 'quick' else 1200)
+    kw.setdefault('unwind', 8)
+    nm = kw.pop('name', 'compound_' + entry)
+    kw.setdefault('uf', ('fmul', 'fadd'))
+    kw.setdefault('note', 'fmul/fadd abstracted by uninterpreted functions (the claims are equalities with the reference expression)')
+    return Query(nm, 'sp_compound.cpp', 'harness_compound_' + entry, tus=COMP_TU, **kw)
